@@ -29,7 +29,9 @@ def base_program(rng):
 FAULTS = ["dup_label", "undef_label_operand", "undef_label_push", "undef_label_macro_arg", "undef_label_macro_body",
           "undef_imacro", "undef_emacro", "emacro_missing_arg", "imacro_arity_less", "imacro_arity_more",
           "dup_macro", "div_zero_const", "div_zero_label", "too_large", "negative", "dup_local_label",
-          "undef_variable", "imacro_as_expr", "recursive_imacro", "recursive_emacro", "unbound_var_nested", "missing_arg_nested"]
+          "undef_variable", "imacro_as_expr", "recursive_imacro", "recursive_emacro", "unbound_var_nested", "missing_arg_nested",
+          "undef_label_surplus_arg", "undef_emacro_surplus_arg", "undef_label_nested_arg", "undef_label_surplus_in_imacro_arg",
+          "undef_label_surplus_in_push"]
 
 
 def inject(rng, prog, fault):
@@ -109,6 +111,22 @@ def inject(rng, prog, fault):
         p.insert(0, ("defe", "outerq", ["x"], ("macro", "innerq", [])))
         p.insert(max(pos, 2), ("op", "push1", ("macro", "outerq", [("lbl", "start")])))
         exp = ("UndeclaredVariableMacro", "x")
+    elif fault == "undef_label_surplus_arg":
+        # more arguments than parameters: the surplus one is never evaluated, its labels still must exist
+        p.insert(pos, ("op", "push1", ("macro", "twice", [("num", 1), ("lbl", "nowhere")])))
+        exp = ("UndeclaredLabels", "nowhere")
+    elif fault == "undef_emacro_surplus_arg":
+        p.insert(pos, ("op", "push1", ("macro", "twice", [("num", 1), ("macro", "nofun", [("num", 2)])])))
+        exp = ("UndeclaredExpressionMacro", "nofun")
+    elif fault == "undef_label_nested_arg":
+        p.insert(pos, ("op", "push2", ("macro", "twice", [("macro", "twice", [("lbl", "nowhere")])])))
+        exp = ("UndeclaredLabels", "nowhere")
+    elif fault == "undef_label_surplus_in_imacro_arg":
+        p.insert(pos, ("macro", "guard", [("macro", "twice", [("num", 1), G.climb([("lbl", "start"), "+", ("lbl", "nowhere")])])]))
+        exp = ("UndeclaredLabels", "nowhere")
+    elif fault == "undef_label_surplus_in_push":
+        p.insert(pos, ("push", ("macro", "twice", [("lbl", "end"), ("lbl", "nowhere")])))
+        exp = ("UndeclaredLabels", "nowhere")
     elif fault == "recursive_emacro":
         p.insert(0, ("defe", "loope", [], ("macro", "loope", [])))
         p.insert(max(pos, 1), ("op", "push1", ("macro", "loope", [])))
